@@ -11,6 +11,7 @@ REQUIRED_THEOREMS = ['Props.C13.eval_keeps_state', 'Props.C13.train_updates_once
                      'Props.C13.dropout_train_spec', 'Props.C13.dropout_backward_same_mask',
                      'Props.C13.init_owns_by_options', 'Props.C13.forward_keeps_owned',
                      'Props.C13.attach_keeps_modes', 'Props.C13.register_keeps_modes', 'Props.C13.container_keeps_modes']
+REQUIRED_THEOREMS += ['Props.C13.src_bn_forward_logic_is_model']   # tie to layers.py as read on this run
 RULE = ('BatchNorm: option grid momentum in {None, 0, .1, .5, 1} x affine x track_running_stats x input rank 2/3/4, random running '
         'statistics and affine parameters, histories of train/eval switches and forward calls on batches of varying size '
         '(incl. one value per channel); output values and (running_mean, running_var, num_batches_tracked) compared after every '
@@ -406,6 +407,12 @@ def lines_of(c):
             out.append(f"bn {e[0]}")
     return out
 
+
+
+def extract():
+    """the decision logic of BatchNorm.forward is re-read from layers.py (Generated/LayerLogic.lean); src_bn_forward_logic_is_model is re-checked by the build"""
+    import layer_logic
+    return layer_logic.write()[0]
 
 def cases(rng, tier):
     out = []
